@@ -99,6 +99,8 @@ RULES_TTL = """@prefix sh: <http://www.w3.org/ns/shacl#> . @prefix ex: <http://e
 ex:R1 a sh:NodeShape ; sh:targetClass ex:C0 ; sh:rule [ a sh:TripleRule ; sh:subject sh:this ; sh:predicate ex:marked ; sh:object ex:Yes ] .
 ex:R2 a sh:NodeShape ; sh:targetSubjectsOf ex:p ; sh:rule [ a sh:TripleRule ; sh:subject sh:this ; sh:predicate ex:linked ; sh:object [ sh:path ex:p ] ] .
 ex:R3 a sh:NodeShape ; sh:targetSubjectsOf ex:q ; sh:rule [ a sh:TripleRule ; sh:subject [ sh:path ex:q ] ; sh:predicate ex:marked ; sh:object ex:Yes ] .
+ex:R4 a sh:NodeShape ; sh:targetSubjectsOf ex:p ; sh:rule [ a sh:TripleRule ; sh:subject sh:this ; sh:predicate ex:kept ; sh:object [ sh:filterShape [ sh:class ex:C0 ] ; sh:nodes [ sh:path ex:p ] ] ] .
+ex:V3 a sh:NodeShape ; sh:targetNode %(nodes)s ; sh:property [ sh:path ex:kept ; sh:maxCount 0 ] .
 ex:V1 a sh:NodeShape ; sh:targetNode %(nodes)s ; sh:property [ sh:path ex:marked ; sh:maxCount 0 ] .
 ex:V2 a sh:NodeShape ; sh:targetNode %(nodes)s ; sh:property [ sh:path ex:linked ; sh:minCount 1 ] .
 """
